@@ -38,6 +38,18 @@ CLAIMS = {
             note="The empty artifact set is out of scope (the compiler always writes iso.ts and tsconfig.json); HashMap order cannot be forced, the model explores all orders and each observed order must be admissible. Two genuine defects were repaired (known_findings.json)."),
  "C19": dict(engine="artifactdir", design="3/C19", text="Same specification with faults: every admissible operation order x every operation index x four fault kinds (I/O error, kill, torn write + error, torn write + kill) x same session or new process x same or changed artifact set; TLC checks that the next successful compile restores the C18 postcondition; every case is replayed on the real code through the fault-injection hook and validated by TLC.",
             note="A process kill is simulated by stopping the operation loop and dropping the state; torn writes are modelled as a truncated file."),
+ "C22": dict(engine="lspformat", design="3/C22", text="IsoFormat.tla models the formatter as a token-driven printer; TLC enumerates grammar-generated literals (headers, variable definitions, directives, descriptions incl. multi-line block strings with non-ASCII, bodies with aliases, every argument value kind, nested and empty selection sets) under layout schemes and random separators; each literal is formatted by the real on_format, re-parsed by the real parser and formatted again; TLC judges the records: output accepted, same declaration modulo positions, idempotent, and the TextEdit range replaces exactly the literal under UTF-16 conventions.",
+            note="Declaration equality is over the harness's position-stripped projection of the parser's declaration (trusted). Non-BMP characters inside literals are rejected by the iso lexer and therefore not covered."),
+ "C23": dict(engine="textfn", design="3/C23", text="Utf.tla / LspPos.tla define UTF-8/UTF-16 widths, the LSP position of a byte offset and the decoding of a semantic-token delta stream; TLC enumerates documents (prefixes over {a, e-acute, CJK, emoji, newline} x real literals x middle text x second literal); each is opened in a real LspState and queried for semantic tokens, formatting edits, diagnostics and definition ranges; TLC checks that every position sent designates exactly the source text and that tokens decode to increasing non-overlapping ranges covering one source token each.",
+            note="Positions the server RECEIVES (cursor -> offset) are recorded as drift only (IncomingIsLayerA = FALSE): the statement speaks of positions the server sends."),
+ "C29": dict(engine="gqlgrammar", design="3/C29", text="The June 2018 executable and type-system grammars are explicit LL(1) production tables in TLA+ (GqlExecGrammar, SdlGrammar over LL1.tla with a deterministic PDA that builds the expected tree); TLC derives every document up to a token bound plus seeded random derivations and single-token mutants; each is rendered with seed-chosen representatives, parsed by the real relay graphql-syntax crate, and TLC judges lexer classes, verdict, tree (incl. BlockStringValue transcribed from the specification), print/re-parse round trip and absence of panics; a fixed corpus of minimal documents per known disagreement class is judged on every run.",
+            note="Lexical fidelity is per class with representatives; relay's tree has no slot for several descriptions (not compared there). 39 known disagreements with the June 2018 grammar (mostly post-2018 syntax and unprocessed string escapes) are listed in known_findings.json; 3 panics were repaired."),
+ "C30": dict(engine="gqlgrammar", design="3/C30", text="Same SdlGrammar generator against crates/graphql_schema_parser: tree equality for types, fields, arguments, type annotations, default values, directives and descriptions, verdict equality on mutants within the explicitly stated supported subset (all eight TypeSystemDefinitions plus `extend type` in extension documents), judged by TLC on recorded observations; fixed corpus of known classes judged on every run.",
+            note="Subset boundary is explicit in GqlTraceIso.tla and printed in the evidence; 15 known findings listed (later-edition syntax accepted, escapes not processed, integers beyond i64 rejected); 6 defects were repaired."),
+ "C31": dict(engine="textfn", design="3/C31", text="Carats.tla: texts over {1-byte char, 2-byte char, newline} x every non-empty character-aligned span x outer offsets, plus random longer texts with 1-4-byte characters; the real text_with_carats runs on each and TLC checks the recorded rendering: no panic, reported row = line of the span start, carets under exactly the span's characters, one per character, on every printed line the span touches.",
+            note="Spans are byte offsets that lie on character boundaries (a span cutting a character is outside the statement); the reported column is drift only."),
+ "C33": dict(engine="textfn", design="3/C33", text="SignedSource.tla: contents over {ordinary chars, the `@generated ` prefix, the signing token, an older signature} with an uninterpreted injective hash; TLC enumerates contents; the real sign_file / is_valid_signature run on each and on EVERY single-character substitution of every signed file (4 replacement kinds per position); TLC checks verify-after-sign and that every edit outside the signature breaks verification.",
+            note="Collision resistance of md5 is assumed. A bare token without the `@generated ` prefix is outside the statement's 'signing token' (drift only)."),
 }
 
 checks = []
